@@ -317,6 +317,14 @@ Den(e, d, env, cfg) ==
 
 Outcome(e, d, cfg) == Den(e, d, <<>>, cfg)
 
+\* how the selector of a top-level match / quantifier resolves when no unknown value is configured:
+\* "ok", "absent" (key absent from a map: the documented table applies), "nf" (a key or field is absent but the
+\* parent is not a map, or the path has one part: an error), "err" (any other failure)
+SelClass(e, d, cfg) ==
+  LET c0 == [cfg EXCEPT !.unknown = None]
+      g == Get(d, e.sel.path, 1, c0)
+  IN IF g.r = "ok" THEN "ok" ELSE IF g.r = "err" THEN "err" ELSE IF ParentIsMap(d, e.sel.path, c0) THEN "absent" ELSE "nf"
+
 \* the elements of a top-level quantifier as the specification sees them: [ok, kind, parts]
 ElemParts(e, d, cfg) ==
   LET r == Resolve(d, e.sel.path, <<>>, cfg) IN
